@@ -259,6 +259,9 @@ class P(Prop):
         (M, "TV.C16.vw_first_kept_iff", "T14 (mixed columns: some areas finite, some infinite / NaN; any scalar type, any tolerance, observations pairwise different): Visvalingam keeps the FIRST observation if and only if every pass of its loop finds a minimum (some '@aire' entry is a number below ARGMIN's initial minimum +inf or -- since b728412 -- equal to it: only NaN is not found); T6 / T6' are the two extreme cases"),
         (M2, "TV.C16.vw_sublist_ends_no_nan", "T6 at full strength (every column without NaN): when every triangle area of the track is a number below ARGMIN's start value +inf OR EQUAL to it (on doubles: not NaN; infinite areas are found since b728412), for any tolerance and scalar type: sub-sequence, FIRST and last observation kept, >= 2 kept, every pass finds a minimum, the loop stops by itself"),
         (M2, "TV.C16.vw_any_tiebreak_no_nan", "T13 on columns without NaN (infinite areas allowed): every run with another choice among equally small triangles keeps the first and the last observation and >= 2"),
+        (M2, "TV.C16.vw_track_ends_no_nan", "T9 (ends) on columns without NaN: on the Track object (well-formed feature table without '@aire', >= 2 fixes, no NaN area -- infinite areas allowed) the first and the last OBSERVATION (feature rows included) are kept, any tolerance"),
+        (M2, "TV.C16.vw_track_correct_no_nan", "C16 for Visvalingam on the Track object in one piece, every column without NaN: the call succeeds, the observations returned (feature rows included) are a sub-sequence with the first and the last observation, >= 2 of them, dict / uid / tid / base the input's"),
+        (M2, "TV.C16.vw_all_levels_complete", "T13 (completeness; closes round 6's open statement on columns without NaN): on a track of >= 2 observations identified by their tags with no NaN area, whenever visvalingamAll does not give up its result is EXACTLY the set of results of the runs with some choice among equally small triangles (sound and complete: merging the states that hold the same observations loses nothing, a state being a function of its observations there)"),
         (M2, "TV.C16.vw_all_nan", "T6' for the WHOLE run (what exactly happens with NaN areas, extreme case): when no triangle area of the track is a number <= ARGMIN's start value nor > eps*eps (on doubles: every area NaN) every pass takes ARGMIN's default index 0 and Visvalingam returns exactly the LAST TWO observations; any scalar type, any tolerance"),
         (M2, "TV.C16.dp_depth_defined_iff", "T16: the depth of douglas_peucker's recursion (dpDepth: nested calls below the outermost one; compared with the real code by the `depth` stream) is defined exactly when the call returns"),
         (M2, "TV.C16.dp_depth_le", "T16 (bound; finding dp-recursion-depth seen from the model): under T3's hypotheses (eps > 0, distance_to_segment(A; A, B) never > 0) the recursion on a track of n fixes is at most n - 2 levels deep (0 for n <= 2): at most n - 1 frames of douglas_peucker; any scalar type"),
@@ -281,13 +284,14 @@ class P(Prop):
         "only is proved to return the last two observations (vw_all_nan; its hypothesis quantifies over all triples of fixes of the track, repeated ones "
         "included: on doubles, infinite coordinates or differences that all overflow). "
         "Still open: MIXED columns expressed on the INPUT coordinates alone (which areas are recomputed to what depends on the whole run; T14 gives the "
-        "condition pass by pass) -- compared with the model only (stream `wild`); the Track-object form of vw_sublist_ends_no_nan (vw_track_ends is stated "
-        "with T6's strict hypothesis)",
+        "condition pass by pass) -- compared with the model only (stream `wild`)",
         "T10 (vw_threshold) now holds for any arithmetic on a linear order, i.e. for the COMPUTED areas and the computed eps*eps; what it cannot say is how a computed "
         "area relates to the exact one: an exact area within an ulp of eps^2 may fall on either side (model and code agree bit for bit there: correspondence)",
         "T13 (ties in Visvalingam): every result of visvalingamAll is proved to be a run with some choice among equally small triangles (soundness of what the "
         "correspondence check accepts) and the code's own run is one; that the level-by-level enumeration with merged states returns ALL such runs when it does "
-        "not give up (completeness) is not proved -- a missing run would only show as a correspondence disagreement, never as an accepted wrong result. The "
+        "not give up (completeness) is now proved on columns without NaN (vw_all_levels_complete: the result is exactly the set of such runs). Still open: "
+        "completeness when some area is NaN (then index 0 can be removed, entry 0 keeps a stale wrap-around area and a state is no longer a function of its "
+        "observations: two merged states may have different futures) -- a missing run would only show as a correspondence disagreement, never as an accepted wrong result. The "
         "Track-level model (vwTrk) is the code's own run only: for another run the harness checks dict / uid / tid / base / no_data_value against the model "
         "(they do not depend on the run) and positions / feature rows of the kept observations against the input",
         "T16 (depth of douglas_peucker's recursion): the bound n - 2 and its attainment are theorems about the model (dp_depth_le, dp_depth_attained; the `depth` "
